@@ -25,6 +25,8 @@ type Case struct {
 	Variant  int              `json:"variant,omitempty"`    // non-period parameters scaled by variantFactor[Variant]
 	Procs    int              `json:"gomaxprocs,omitempty"` // GOMAXPROCS of the process that found it (replay sets it again)
 	Local    int              `json:"local_zone_hours,omitempty"` // the process's local time zone during the case (UTC+h); 0 = UTC
+	Late     bool             `json:"late_feed,omitempty"` // pipelines: the producers start only after the constructor (Compute) has returned
+	Nbr      bool             `json:"neighbour,omitempty"` // C03: an unrelated helper pipeline runs in the same simulation
 	Pub      bool             `json:"public_fields_only,omitempty"` // scaled configurations touch exported fields only (what a user can assign after construction)
 	Repeat   int              `json:"repeat_date,omitempty"` // reports: the snapshot at this position (1-based, >= 2) carries the date of the one before it
 	Base     int              `json:"base_dir,omitempty"`   // index into baseNames: the directory the case works in is named like that
@@ -338,6 +340,12 @@ func workerMain() int {
 		if pipeBased[prop] && rng.Intn(4) == 0 {
 			c.Pub = true
 		}
+		if pipeBased[prop] && prop != "C09" && prop != "C14" && rng.Intn(6) == 0 {
+			c.Late = true // build, then feed
+		}
+		if prop == "C03" && rng.Intn(8) == 0 {
+			c.Nbr = true
+		}
 		if fsBased[prop] && rng.Intn(8) == 0 {
 			c.Base = 1 + rng.Intn(len(baseNames)-1) // a directory whose name is not made of letters and digits only
 		}
@@ -441,6 +449,20 @@ func reportViolation(ck Check, c *Case, v Violation, dir string, st *Stats) Viol
 	if cur.Local != 0 {
 		cand := *cur
 		cand.Local = 0
+		if w, ok := same(&cand); ok {
+			cur, curV = &cand, w
+		}
+	}
+	if cur.Late {
+		cand := *cur
+		cand.Late = false
+		if w, ok := same(&cand); ok {
+			cur, curV = &cand, w
+		}
+	}
+	if cur.Nbr {
+		cand := *cur
+		cand.Nbr = false
 		if w, ok := same(&cand); ok {
 			cur, curV = &cand, w
 		}
@@ -642,6 +664,12 @@ func runCase(ck Check, c *Case, st *Stats) []Violation {
 	defer func() { scalePublicOnly = false }()
 	if c.Pub {
 		st.Faults["periods-assigned-through-exported-fields-only"]++
+	}
+	if c.Late {
+		st.Faults["producers-started-after-the-pipeline-was-built"]++
+	}
+	if c.Nbr {
+		st.Faults["unrelated-pipeline-running-alongside"]++
 	}
 	if c.Base > 0 && c.Base < len(baseNames) {
 		curBase = baseNames[c.Base]
